@@ -185,8 +185,9 @@ theorem C01_code_fits_partial (s : St) (bs : List Nat) (k : Nat) :
     · unfold St.moveBack; simp [hc]
 
 /-- **The code fits, for the class `Node.plain`** (second partial result towards `C01_code_fits`).  For **every** tree of
-the decidable class `Node.plain` — everything except unary minus (whose constant folding reads code bytes back through
-the 32-byte ring): labels with parameters, assignments, reads of variables (the `LOAD_x_VAR → LOAD_STORE_x_VAR` fusion
+the decidable class `Node.plain` — everything except a unary minus on something else than an integer or float literal
+(the constant folding reads code bytes back through the 32-byte ring; for a literal just emitted either manager reads
+back what it wrote: `Emit/Bytes.lean`, `Emit/SimNeg.lean`): labels with parameters, assignments, reads of variables (the `LOAD_x_VAR → LOAD_STORE_x_VAR` fusion
 included), `if`, `if/else`, `while`, `for`, `do`, `break`, `continue`, `switch` with its case labels, `try` / `catch`, `&&`,
 `||`, `!`, all binary and the other unary operators, literals of every width, strings, vectors, arrays, constant arrays,
 built-in getters, script and method commands with any number of arguments; listener bytes as the parser produces them —
@@ -200,8 +201,8 @@ fix-up counters and flags), kept by every primitive in lock-step (`Emit/Sim.lean
 each pass takes (`Emit/Fuse.lean`), by the state scripts and counting sub-emitters of `try` / `switch`
 (`Emit/SimNest.lean`) and by every constructor of the class (`Emit/SimEmit*.lean`); monotonicity of `progLength`
 (`Emit/Mono.lean`) and "a counting emitter never reports a code overflow" (`Emit/NoCO.lean`) hold for all trees.
-*Still missing for the full statement:* the ring/buffer agreement of the last ≤ 8 bytes when `EvalPrevValue` folds a
-unary minus into the literal before it. -/
+*Still missing for the full statement:* unary minus on other operands (the top opcode after the operand, or a
+byte-agreement invariant that survives `AbsorbPrevOpcode`). -/
 theorem C01_code_fits_partial2 (dev : Bool) (root : Node) (hpl : root.plain = true) :
     compile dev root ≠ .error (.ub .codeOverflow) :=
   plain_compile_fits dev root hpl
@@ -214,6 +215,10 @@ example : (Node.list (.cons (.assign (.field 1 1 0 0 (.listener 2)) (.int 0))
       (.list (.cons (.if_ (.f2 88 (.field 2 2 0 0 (.listener 2)) (.int 3)) (.list (.cons .brk .nil)))
         (.cons (.cmd 3 true (.cons (.str 4) (.cons (.int 7) .nil)))
           (.cons (.assign (.field 1 1 0 0 (.listener 2)) (.int 1)) .nil)))) .none) .nil))).plain = true := by decide
+
+/-- negative literals are in the class: `local.a = -5`, `local.b = -1.5` -/
+example : (Node.list (.cons (.assign (.field 1 1 0 0 (.listener 2)) (.f1 Gen.EmitConsts.OP_UN_MINUS (.int 5)))
+    (.cons (.assign (.field 2 2 0 0 (.listener 2)) (.f1 Gen.EmitConsts.OP_UN_MINUS (.float 1069547520))) .nil))).plain = true := by decide
 
 /-- non-vacuity: a one-byte buffer takes one byte and refuses the second -/
 example : ((({ St.init false with progLen := 1, buf := Tbl.mk' 1 0 } : St).write [7]).toOption.map (·.pos)) = some 1 := by
